@@ -296,7 +296,7 @@ fn dispatch_integer_method(receiver: &i32, method_name: &str, argument_pointers:
         ("-",  Pointer::Integer(argument)) => Pointer::from(receiver -  argument),
         ("*",  Pointer::Integer(argument)) => Pointer::from(receiver *  argument),
         ("/",  Pointer::Integer(argument)) => Pointer::from(receiver /  argument),
-        ("%",  Pointer::Integer(argument)) => Pointer::from(receiver %  argument),
+        ("%",  Pointer::Integer(argument)) => Pointer::from(remainder(*receiver, *argument)?),
         ("<=", Pointer::Integer(argument)) => Pointer::from(receiver <= argument),
         (">=", Pointer::Integer(argument)) => Pointer::from(receiver >= argument),
         ("<",  Pointer::Integer(argument)) => Pointer::from(receiver <  argument),
@@ -310,7 +310,7 @@ fn dispatch_integer_method(receiver: &i32, method_name: &str, argument_pointers:
         ("sub", Pointer::Integer(argument)) => Pointer::from(receiver -  argument),
         ("mul", Pointer::Integer(argument)) => Pointer::from(receiver *  argument),
         ("div", Pointer::Integer(argument)) => Pointer::from(receiver /  argument),
-        ("mod", Pointer::Integer(argument)) => Pointer::from(receiver %  argument),
+        ("mod", Pointer::Integer(argument)) => Pointer::from(remainder(*receiver, *argument)?),
         ("le",  Pointer::Integer(argument)) => Pointer::from(receiver <= argument),
         ("ge",  Pointer::Integer(argument)) => Pointer::from(receiver >= argument),
         ("lt",  Pointer::Integer(argument)) => Pointer::from(receiver <  argument),
@@ -331,6 +331,12 @@ fn dispatch_integer_method(receiver: &i32, method_name: &str, argument_pointers:
         _ => bail!("Call method error: no method `{}` in object `{}`", method_name, receiver),
     };
     Ok(result)
+}
+
+// The remainder has the sign of the dividend; `i32::MIN % -1` is 0 (the native operator overflows on it).
+fn remainder(dividend: i32, divisor: i32) -> Result<i32> {
+    bail_if!(divisor == 0, "Cannot calculate the remainder of dividing `{}` by zero", dividend);
+    Ok(dividend.wrapping_rem(divisor))
 }
 
 fn dispatch_boolean_method(receiver: &bool, method_name: &str, argument_pointers: Vec<Pointer>) -> Result<Pointer> {
